@@ -348,7 +348,7 @@ def build_world(ck, work, quick, rnd=0):
                     if ch in b"-." and i < len(style) - 1:
                         for sfx in (b".set", b".NT", b".nt", b".AS", b".as", b""):
                             decoy = os.path.join(wb, modpath[:i] + sfx)
-                            if sfx and not os.path.lexists(decoy) and len(decoy) < 1000:
+                            if sfx and decoy.startswith(wb + b"/") and not os.path.lexists(decoy) and len(decoy) < 1000:
                                 try:
                                     open(decoy, "wb").write(smpdata)
                                 except OSError:
